@@ -184,7 +184,7 @@ func (w *c20World) perform(th, idx int, c c20Call) *c20CallRec {
 	case "publish":
 		var ev interface{} = &c19EvRes{c19Events[0]}
 		if w.reflectE {
-			ev = &C19Ev{Name: "first", N: 1}
+			ev = c19ReflectEvent(0)
 		}
 		if w.unfit {
 			ev = int64(1) << 40
